@@ -261,6 +261,15 @@ class LoadEngine(SqlEngine):
             chars.pop()
         return SV("str", CStr(chars), a.null)
 
+    def ev_Between(self, e: exp.Between, env: Dict[str, SV]) -> SV:
+        """a BETWEEN lo AND hi  =  a >= lo AND a <= hi  in three-valued logic."""
+        a = self.eval(e.this, env)
+        x = self.compare(a, self.eval(e.args["low"], env), ">=")
+        y = self.compare(a, self.eval(e.args["high"], env), "<=")
+        false_x, false_y = And(Not(x.null), Not(x.v)), And(Not(y.null), Not(y.v))
+        return SV("bool", And(Or(x.null, x.v), Or(y.null, y.v)),
+                  And(Or(x.null, y.null), Not(false_x), Not(false_y)))
+
     def ev_RegexpLike(self, e: exp.RegexpLike, env: Dict[str, SV]) -> SV:
         a = self.eval(e.this, env)
         p = self.eval(e.expression, env)
